@@ -121,7 +121,7 @@ fn main() {
             }
             eprintln!("ran {count} twin pairs ({}), {bad} runs with mismatch/panic/watchdog", args[2]);
         }
-        // mqv aged <seed> <count> <profile.json|-> <trace-out.ndjson> <cfgs.ndjson>
+        // mqv aged <seed> <count> <profile.json|-> <trace-out.ndjson> <cfgs.ndjson> [keep]
         "aged" => {
             let seed: u64 = args[2].parse().expect("seed");
             let count: usize = args[3].parse().expect("count");
@@ -131,17 +131,18 @@ fn main() {
             let mut out = std::io::BufWriter::new(std::fs::File::create(&args[5]).expect("create out"));
             let cfgs: Vec<types::Cfg> = std::fs::read_to_string(&args[6]).expect("cfgs").lines()
                 .filter(|l| !l.trim().is_empty()).map(|l| serde_json::from_str(l).expect("cfg json")).collect();
+            let reconnect = args.get(7).map(|a| a != "keep").unwrap_or(true);
             let (mut bad, mut compared) = (0usize, 0usize);
             for i in 0..count {
                 let mut cfg = cfgs[i % cfgs.len()].clone();
                 let s = seed.wrapping_mul(9_000_011).wrapping_add(i as u64);
                 let flag = std::rc::Rc::new(std::cell::Cell::new(false));
                 cfg.name = format!("aged-{seed}-{i}-fresh");
-                let dir = Box::new(rnd::AgedDirector::new(s, None, cfg.tx, cfg.rx, flag.clone()));
+                let dir = Box::new(rnd::AgedDirector::new(s, None, cfg.tx, cfg.rx, reconnect, flag.clone()));
                 let fresh = runner::run_scenario(&cfg, dir);
                 cfg.name = format!("aged-{seed}-{i}-aged");
                 let hist = rnd::RandomDirector::new(s, profile.clone(), cfg.rx, cfg.downgrade);
-                let dir = Box::new(rnd::AgedDirector::new(s, Some(hist), cfg.tx, cfg.rx, flag.clone()));
+                let dir = Box::new(rnd::AgedDirector::new(s, Some(hist), cfg.tx, cfg.rx, reconnect, flag.clone()));
                 let aged = runner::run_scenario(&cfg, dir);
                 for res in [&fresh, &aged] {
                     if res.mismatch.is_some() || res.panicked.is_some() || res.watchdog { bad += 1; }
